@@ -193,6 +193,56 @@ fn gen_case(rng: &mut Rng) -> Case {
 	// postponed, so new trees may still reuse their nodes until the lock is released
 	let mut zombies: Vec<(usize, STree)> = Vec::new();
 	let mut steps = Vec::new();
+	// wide sharing: one transaction takes references to a few hundred different nodes of a live tree, so that
+	// many reference counters change in one log record (some of them in the same chunk of the counter table)
+	if !append_only && rng.chance(1, 12) {
+		let f1 = rng.range(200, 255) as usize;
+		let t1 = STree {
+			data: rng.range(1, 1 << 30),
+			children: (0..f1)
+				.map(|_| {
+					let sub = if rng.chance(1, 10) { rng.range(1, 3) as usize } else { 0 };
+					SChild::New(STree { data: rng.range(1, 1 << 30), children: (0..sub).map(|_| SChild::New(STree { data: rng.range(1, 1 << 30), children: vec![] })).collect() })
+				})
+				.collect(),
+		};
+		let mut order: Vec<usize> = (0..f1).collect();
+		rng.shuffle(&mut order);
+		let f2 = rng.range(150, f1 as u64) as usize;
+		let t2 = STree {
+			data: rng.range(1, 1 << 30),
+			children: order[..f2]
+				.iter()
+				.map(|i| {
+					if rng.chance(9, 10) {
+						SChild::Existing { key: 0, path: vec![*i], expanded: t1.at(&[*i]).unwrap() }
+					} else {
+						SChild::New(STree { data: rng.range(1, 1 << 30), children: vec![] })
+					}
+				})
+				.collect(),
+		};
+		steps.push(Step::Commit(vec![Op::Insert(0, t1.clone())]));
+		steps.push(Step::Process);
+		if rng.chance(1, 2) {
+			steps.extend([Step::Flush, Step::Enact]);
+		}
+		steps.push(Step::Commit(vec![Op::Insert(1, t2.clone())]));
+		steps.extend([Step::Process, Step::Process, Step::Flush, Step::Enact, Step::Clean]);
+		if rng.chance(1, 2) {
+			steps.push(Step::Reopen);
+		}
+		used[0] = true;
+		used[1] = true;
+		shadow[0] = Some((t1, 1));
+		shadow[1] = Some((t2, 1));
+		if rng.chance(1, 2) {
+			// the sharer goes first
+			steps.push(Step::Commit(vec![Op::Deref(1)]));
+			shadow[1] = None;
+			steps.extend([Step::Process, Step::Process, Step::Flush, Step::Enact]);
+		}
+	}
 	let nsteps = rng.range(10, 40);
 	for _ in 0..nsteps {
 		match rng.below(20) {
